@@ -19,7 +19,7 @@ def inClear : PC → Bool
   | .c8 _ => true
   | .c9 _ _ => true
   | .c10 _ => true
-  | .c11 => true
+  | .c11 _ => true
   | _ => false
 
 /-- thread-local fact: the bit the thread is about to CAS to one is zero in the value it compares with -/
@@ -251,7 +251,7 @@ theorem inv_return {s : State} (hI : Inv s) {t id : Nat} (ht : s.threads[t]? = s
 theorem inv_release {s : State} (hI : Inv s) {t id : Nat} {b : Word}
     (ht : s.threads[t]? = some (.c9 id b)) (hb : s.sh.words.getD (bucketOffset id) 0 = b) :
     Inv { sh := { s.sh with words := s.sh.words.set (bucketOffset id) (b &&& ~~~ mask id) },
-          threads := s.threads.set t .c11, held := s.held } := by
+          threads := s.threads.set t (.c11 id), held := s.held } := by
   obtain ⟨h1, h2, h3, h4⟩ := hI.ownOk t _ id ht rfl
   have hset : s.sh.words.set (bucketOffset id) (b &&& ~~~ mask id) = clrBit s.sh.words id := by
     unfold clrBit bucketOffset; rw [← hb]; rfl
@@ -290,7 +290,7 @@ theorem inv_release {s : State} (hI : Inv s) {t id : Nat} {b : Word}
     split at hu
     · cases hu; trivial
     · exact hI.locals u pcu hu
-  · have h := countP_set isOwner s.threads t .c11 _ ht
+  · have h := countP_set isOwner s.threads t (.c11 id) _ ht
     have := hI.count
     have h5 := countBelow_clr (p := bitAt s.sh.words) (q := bitAt (clrBit s.sh.words id)) id hbits h3
       (64 * s.sh.words.length)
@@ -298,14 +298,14 @@ theorem inv_release {s : State} (hI : Inv s) {t id : Nat} {b : Word}
     simp only [length_clrBit]
     simp [h2] at h5
     omega
-  · have h := countP_set inClear s.threads t .c11 _ ht
+  · have h := countP_set inClear s.threads t (.c11 id) _ ht
     have := hI.inuse
     simp [inClear] at h
     simp only []
     omega
 
 /-- `AddInt32(&inuse, -1)` of `Clear`: the result is not negative -/
-theorem inv_decrement {s : State} (hI : Inv s) {t : Nat} (ht : s.threads[t]? = some .c11) :
+theorem inv_decrement {s : State} (hI : Inv s) {t x : Nat} (ht : s.threads[t]? = some (.c11 x)) :
     Inv { sh := { s.sh with inuse := s.sh.inuse - 1 }, threads := s.threads.set t .idle, held := s.held }
     ∧ ¬ (s.sh.inuse - 1 < 0) := by
   have hc := countP_set inClear s.threads t .idle _ ht
